@@ -359,3 +359,52 @@ Section Decide.
 End Decide.
 Arguments elem_stable3_b {M U R} p elem aps.
 Arguments elem_stable3_sound {M U R} I p Hrw Hstable elem aps a.
+
+(* ---- the condition decides the class ---- *)
+Section ClassDecided.
+  Variables M U R : Type.
+  Variable p : policy M U R.
+
+  (* the policy treats the attribute without looking at its value: an unpatterned rule (element or global), or no rule *)
+  Definition key_free_b (aps : amap (list (attr_policy M))) (k : bytes) : bool :=
+    accepted_b M U R p aps k || rejected_b M U R p aps k.
+  (* the class of C20, element by element: no value pattern decides about rel, target, crossorigin or the URL attribute,
+     and the element is not an iframe under RequireSandboxOnIFrame *)
+  Definition in_class_b (elem : bytes) (aps : amap (list (attr_policy M))) : bool :=
+    key_free_b aps REL && key_free_b aps TARGET && key_free_b aps CROSSORIGIN && url_free_b M U R p elem aps && no_sandbox_b M U R p elem.
+  (* the two shapes in which re-sanitising reorders attributes (findings F15, F17) *)
+  Definition f15_shape_b (elem : bytes) (aps : amap (list (attr_policy M))) : bool :=
+    beqb elem (B"a") && xorb (accepted_b M U R p aps REL) (accepted_b M U R p aps TARGET).
+  Definition f17_shape_b (elem : bytes) (aps : amap (list (attr_policy M))) : bool :=
+    mem elem link_rel_elements && mem elem crossorigin_elements && accepted_b M U R p aps CROSSORIGIN && rejected_b M U R p aps REL.
+
+  Lemma a_is_link elem : beqb elem (B"a") = true -> mem elem link_rel_elements = true /\ mem elem crossorigin_elements = false.
+  Proof. intros H. apply beqb_eq in H. subst elem. split; reflexivity. Qed.
+
+  Lemma relevant_keys elem :
+    relevant elem REL = mem elem link_rel_elements /\ relevant elem TARGET = beqb elem (B"a") /\ relevant elem CROSSORIGIN = mem elem crossorigin_elements.
+  Proof.
+    unfold relevant. change (beqb REL REL) with true. change (beqb REL TARGET) with false. change (beqb REL CROSSORIGIN) with false.
+    change (beqb TARGET REL) with false. change (beqb TARGET TARGET) with true. change (beqb TARGET CROSSORIGIN) with false.
+    change (beqb CROSSORIGIN REL) with false. change (beqb CROSSORIGIN TARGET) with false. change (beqb CROSSORIGIN CROSSORIGIN) with true.
+    repeat split; destruct (mem elem link_rel_elements), (beqb elem (B"a")), (mem elem crossorigin_elements); reflexivity.
+  Qed.
+
+  Theorem class_decided elem aps : in_class_b elem aps = true ->
+    elem_stable3_b p elem aps || f15_shape_b elem aps || f17_shape_b elem aps = true.
+  Proof.
+    intros Hc. unfold in_class_b in Hc.
+    apply andb_true_iff in Hc as [Hc Hsb]. apply andb_true_iff in Hc as [Hc Hu]. apply andb_true_iff in Hc as [Hc Fc].
+    apply andb_true_iff in Hc as [Fr Ft].
+    unfold elem_stable3_b, elem_stable2_b, relevant_rejected_b, rel_only_b, forced_accepted_b, f15_shape_b, f17_shape_b.
+    rewrite Hu, Hsb. cbn [forallb]. destruct (relevant_keys elem) as (-> & -> & ->).
+    unfold key_free_b in Fr, Ft, Fc.
+    destruct (beqb elem (B"a")) eqn:Ea.
+    - destruct (a_is_link elem Ea) as [-> ->]. cbn [negb andb orb].
+      destruct (accepted_b M U R p aps REL), (accepted_b M U R p aps TARGET), (rejected_b M U R p aps REL), (rejected_b M U R p aps TARGET);
+        cbn in *; try discriminate; rewrite ?orb_true_r; reflexivity.
+    - destruct (mem elem link_rel_elements), (mem elem crossorigin_elements);
+      destruct (accepted_b M U R p aps REL), (accepted_b M U R p aps CROSSORIGIN), (rejected_b M U R p aps REL), (rejected_b M U R p aps CROSSORIGIN);
+        cbn in *; try discriminate; rewrite ?orb_true_r; reflexivity.
+  Qed.
+End ClassDecided.
